@@ -174,11 +174,11 @@ class GuardEngine:
             return False
         v = strip(v)
         k = v.get("k")
-        if k == "Call" and v.get("ctor", "").endswith("Result::Err") and "Err" in self.refusal_values:
+        if k == "Call" and v.get("ctor", "").endswith("::Err") and "Err" in self.refusal_values:
             return True
         if k == "Lit" and v.get("v") == "false" and "false" in self.refusal_values:
             return True
-        if k == "Path" and v.get("def", "").endswith("Option::None") and "None" in self.refusal_values:
+        if k == "Path" and v.get("def", "").endswith("::None") and "None" in self.refusal_values:
             return True
         return False
 
